@@ -15,18 +15,23 @@ RULE = ('every context of EXH(k) (all boolean tables with rows*cols<=k; k=9 quic
         'for each, all ordered pairs of concepts (sampled 400 pairs beyond 40 concepts); observation = the 8 named '
         'predicates and the 4 operators; non-trivial = context with a pair that is incomparable, or equal, or '
         'involving an empty extent; distinct by (nG, nM, rows)')
+from .latfam import INDIRECT_RULE  # noqa: E402
+RULE = RULE + INDIRECT_RULE
 EXHAUSTIVE = {'quick': False, 'thorough': False}
 
 
 def observe(cx, seed, impl=None):
     if isinstance(impl, Exception):
         return Case(f'({cx.nG}%nat, [(0, 0, -999)])', cx.to_json(), False, [{'Context() raised': repr(impl)}], sig=cx.key())
-    if isinstance(impl, tuple):
-        ctx, lattice = impl
-    else:
-        ctx = impl if impl is not None else util.make_context(cx)
-        lattice = ctx.lattice
-    concepts = list(lattice)
+    try:
+        if isinstance(impl, tuple):
+            ctx, lattice = impl
+        else:
+            ctx = impl if impl is not None else util.make_context(cx)
+            lattice = ctx.lattice
+        concepts = list(lattice)
+    except Exception as e:  # noqa: BLE001  (a crash while building the lattice is a disagreement, not a harness error)
+        return Case(f'({cx.nG}%nat, [(0, 0, -999)])', cx.to_json(), False, [{'building the lattice raised': repr(e)}], sig=cx.key())
     n = len(concepts)
     r = random.Random(seed * 1000003 + hash(cx.key()) % 1000003)
     if n <= 40:
